@@ -168,20 +168,39 @@ func metaView(c metaVisitor) string {
 	return string(b)
 }
 
-// MetaFor is the metadata a sender attaches to the message with this tag: several keys, an empty
-// value in the middle, a repeated key.
-func MetaFor(tag string) []erpc.MessageSetting {
-	return []erpc.MessageSetting{
-		erpc.WithSetMeta(MetaKey, "m-"+tag),
-		erpc.WithAddMeta("e"+tag[len(tag)-1:], ""),
-		erpc.WithAddMeta("r", "1-"+tag),
-		erpc.WithAddMeta("r", "2-"+tag),
+// metaLayout derives the metadata of a message from its tag: several keys, a repeated key, and a
+// key with an EMPTY value whose position (and presence) varies from message to message, so that
+// pooled containers see different shapes in consecutive uses.
+func metaLayout(tag string) [][2]string {
+	h := Sum(tag)
+	pairs := [][2]string{{MetaKey, "m-" + tag}, {"r", "1-" + tag}, {"r", "2-" + tag}, {"z", "z-" + tag}}
+	switch h % 3 {
+	case 0: // an empty value at a varying position
+		pos := (h / 3) % (len(pairs) + 1)
+		pairs = append(pairs[:pos], append([][2]string{{"e", ""}}, pairs[pos:]...)...)
+	case 1: // two empty values
+		pairs = append([][2]string{{"e1", ""}}, pairs...)
+		pairs = append(pairs[:3], append([][2]string{{"e2", ""}}, pairs[3:]...)...)
 	}
+	return pairs
+}
+
+// MetaFor is the metadata a sender attaches to the message with this tag.
+func MetaFor(tag string) []erpc.MessageSetting {
+	var out []erpc.MessageSetting
+	for _, kv := range metaLayout(tag) {
+		out = append(out, erpc.WithAddMeta(kv[0], kv[1]))
+	}
+	return out
 }
 
 // MetaViewFor is what the receiver must see for MetaFor(tag).
 func MetaViewFor(tag string) string {
-	return MetaKey + "=m-" + tag + ";e" + tag[len(tag)-1:] + "=;r=1-" + tag + ";r=2-" + tag + ";"
+	s := ""
+	for _, kv := range metaLayout(tag) {
+		s += kv[0] + "=" + kv[1] + ";"
+	}
+	return s
 }
 
 type metaSetter interface {
@@ -190,15 +209,13 @@ type metaSetter interface {
 }
 
 func replyMeta(c metaSetter, tag string) {
-	c.SetMeta(MetaKey, GM("m-"+tag))
-	c.AddMeta("re", "")
-	c.AddMeta("rz", "z-"+tag)
+	for _, kv := range metaLayout("reply." + tag) {
+		c.AddMeta(kv[0], kv[1])
+	}
 }
 
 // ReplyMetaViewFor is the reply metadata the caller must see.
-func ReplyMetaViewFor(tag string) string {
-	return MetaKey + "=" + GM("m-"+tag) + ";re=;rz=z-" + tag + ";"
-}
+func ReplyMetaViewFor(tag string) string { return MetaViewFor("reply." + tag) }
 
 func corrRoutes(p erpc.Peer) {
 	p.RouteCall(new(CT))
